@@ -37,7 +37,7 @@ FLOORS = {'quick': {'adds_accepted': 5000, 'adds_rejected_duplicate': 1500, 'add
                     'hostile_rejected': 500, 'hostile_accepted': 500, 'id_probes': 10000, 'unknown_name_probes': 5000,
                     'full_checks': 20000, 'itemize_result_mutated': 5000, 'big_libraries': 6, 'big_tags': 800, 'module_histories': 24, 'module_hostile_tried': 210, 'contract:TagLibrary.bijection': 20000,
                     'reach:Tags.TagLibrary.add_tag': 8000},
-          'thorough': {'adds_accepted': 400000, 'module_histories': 2000}}
+          'thorough': {'adds_accepted': 400000, 'module_histories': 1200}}
 EXHAUSTIVE = {}
 
 
